@@ -6,6 +6,19 @@ BASELINE = ("cd /repo && cargo nextest run --workspace --no-fail-fast --test-thr
             "|| cargo test --workspace --no-fail-fast --offline")
 
 CHECKS = {
+    "C19": dict(
+        category="exploration",
+        text=("For each of the six presets a value of every field is generated (all enum variants, Options both ways, nested adaptation "
+              "options, finite floats over the full bit-pattern range including subnormals and -0.0, integers up to u64::MAX) and sent "
+              "through to_value/from_value, to_string/from_str and pretty printing; the Debug rendering (which prints every field with "
+              "round-trip float formatting) must be unchanged. For runnable settings a chain built from the deserialised value with the "
+              "same seed must produce bit-identical draws, step sizes and statistics for 30 draws. The Zarr trace attribute "
+              "'sampler_settings' is compared with the run's settings in the C14 storage check."),
+        design_ref="DESIGN.md section 3, C19",
+        note=("Debug of the settings types is derived, so a field missing from Debug would go unnoticed; JSON cannot carry non-finite "
+              "floats, so only finite values are generated."),
+        technique="proptest-generated settings values, serde round-trip compared through an independent rendering (Debug) and through chain replay",
+    ),
     "C16": dict(
         category="exploration",
         text=("The product of the six presets, the four store_* flags and the mass-matrix options (224 configurations) is enumerated "
